@@ -237,7 +237,7 @@ def run(ctx):
     rest = [p for p in progs if not p["kind"].startswith("corpus") and not by_id.get(p["id"], {}).get("panic")]
     rnd = [p for p in rest if p["kind"] == "random"]
     exh = [p for p in rest if p["kind"] != "random"]
-    budget_ops = 60000 if ctx.thorough else 2600
+    budget_ops = 60000 if ctx.thorough else 4000
     r2 = random.Random(ctx.seed * 7919 + 1)
     r2.shuffle(rnd)
     r2.shuffle(exh)
